@@ -298,7 +298,8 @@ func c04Alphabet() []*c04Op {
 // c04Queries: 2^4 shapes x values incl. an unknown namespace and never-stored values.
 func c04Queries() []*ketoapi.RelationQuery {
 	return axQueryProduct(
-		[]string{"n1", "n2", "zz"}, []string{"a", "b"}, []string{"r", "s"},
+		// (the empty string is a VALUE of a query field, present-and-empty, not "field absent")
+		[]string{"n1", "n2", "zz"}, []string{"a", "b", ""}, []string{"r", "s", ""},
 		[]*ketoapi.RelationTuple{axID("", "", "", "x"), axID("", "", "", "y"), axSet("", "", "", "n1", "a", "r"), axSet("", "", "", "n1", "a", "")})
 }
 
